@@ -69,6 +69,8 @@ type c20Opts struct {
 	Noisy     int    // behaviour of step commands: 0 quiet, 1 multi-line stdout, 2 stderr only
 	InterCLI  bool   // the certificate is issued by an intermediate CA that only `verify -i` supplies
 	Rerun     bool   // the last step is first carried out with a very noisy command, then again for real (same link path, shorter file)
+	NonASCII  bool   // product file names with non-ASCII characters
+	Resign    bool   // the layout file is first signed as an earlier revision, then revised in place (stale signatures stay) and signed again with the same keys
 }
 
 func (o c20Opts) String() string {
@@ -154,6 +156,17 @@ func runC20(c *core.Ctx) {
 		}
 		o.InterCLI = o.Cert && r.Intn(2) == 0
 		o.Rerun = r.Intn(3) == 0
+		o.NonASCII = r.Intn(3) == 0
+		o.Resign = r.Intn(3) == 0
+		if o.DSSE && o.NonASCII {
+			o.Noisy = 1 // control characters and non-ASCII characters in one DSSE payload
+		}
+		outFile := func(step string) string {
+			if o.NonASCII {
+				return step + "-naïve-出力.out"
+			}
+			return step + ".out"
+		}
 		id := fmt.Sprintf("chain/%d", i)
 		if !c.Want(id) && !strings.HasPrefix(c.Only, id) && c.Only != "" {
 			continue
@@ -208,7 +221,7 @@ func runC20(c *core.Ctx) {
 		var lastProducts map[string]string
 		for s, name := range stepNames {
 			// what the step's command does in proj/
-			newFile := fmt.Sprintf("proj/%s.out", name)
+			newFile := "proj/" + outFile(name)
 			content := fmt.Sprintf("%s-output-%d\n", name, i)
 			ops := []string{helper, "fsop", "multi", "create", newFile, content, "--"}
 			switch o.Noisy {
@@ -221,7 +234,7 @@ func runC20(c *core.Ctx) {
 				ops = append(ops, "create", "proj/scratch.tmp", "tmp", "--")
 			}
 			if s > 0 {
-				ops = append(ops, "delete", fmt.Sprintf("proj/%s.out", stepNames[s-1]))
+				ops = append(ops, "delete", "proj/"+outFile(stepNames[s-1]))
 			}
 			common := []string{"-n", name, "-k", fnPriv[s]}
 			if s == 0 && o.Cert {
@@ -313,7 +326,7 @@ func runC20(c *core.Ctx) {
 		}
 		var steps []intoto.Step
 		for s, name := range stepNames {
-			st := gen.Step(name, 1, gen.KeyIDs(fn[s]), [][]string{{"ALLOW", "*"}}, [][]string{{"CREATE", prefix + name + ".out"}, {"ALLOW", "*"}})
+			st := gen.Step(name, 1, gen.KeyIDs(fn[s]), [][]string{{"ALLOW", "*"}}, [][]string{{"CREATE", prefix + outFile(name)}, {"ALLOW", "*"}})
 			if s > 0 {
 				st.ExpectedMaterials = [][]string{{"MATCH", "*", "WITH", "PRODUCTS", "FROM", stepNames[s-1]}, {"DISALLOW", "*"}}
 			}
@@ -336,6 +349,31 @@ func runC20(c *core.Ctx) {
 		unsigned, _ := gen.NewMeta(layout, o.DSSE)
 		w.layout = filepath.Join(root, "root.layout")
 		unsigned.Dump(w.layout)
+		if o.Resign {
+			// an earlier revision of the layout, signed through the CLI; the file is then revised in place
+			// (content replaced, the now stale signatures stay) and signed again below
+			final, _ := os.ReadFile(w.layout)
+			early := layout
+			early.Readme = "first revision of this layout"
+			em, _ := gen.NewMeta(early, o.DSSE)
+			em.Dump(w.layout)
+			for k := range owners {
+				if inv := cl.run(root, "sign", "-f", w.layout, "-k", ownerPriv[k], "-o", w.layout); inv.Exit != 0 {
+					fail = "in-toto sign (first revision) fails: " + inv.Stderr
+				}
+			}
+			var signedDoc, finalDoc map[string]any
+			sb, _ := os.ReadFile(w.layout)
+			if json.Unmarshal(sb, &signedDoc) == nil && json.Unmarshal(final, &finalDoc) == nil {
+				for _, part := range []string{"signed", "payload"} {
+					if v, ok := finalDoc[part]; ok {
+						signedDoc[part] = v
+					}
+				}
+				nb, _ := json.Marshal(signedDoc)
+				os.WriteFile(w.layout, nb, 0644)
+			}
+		}
 		for k := range owners {
 			inv := cl.run(root, "sign", "-f", w.layout, "-k", ownerPriv[k], "-o", w.layout)
 			if inv.Exit != 0 {
@@ -616,7 +654,7 @@ func init() {
 	core.Register(&core.Property{
 		ID:    "C20",
 		Level: "exploration",
-		Rule: "seeded supply chains of 1-3 steps carried out ONLY through the built `in-toto` binary: per step `run` or `record start` / (changes by hand) / `record stop`, options drawn from {--use-dsse, -c certificate with the CA in the layout (the certificate issued directly or by an intermediate CA that only `verify -i` supplies), -l strip prefix, -d metadata directory, --run-dir, -x, -e exclude}, step commands that are quiet / print several lines / write to stderr only; in a third of the chains the last step is carried out twice (a noisy first attempt, then the real one, both writing the same link path); layout written by the harness and signed with `in-toto sign` by 1-2 keys; link names checked against the verifier's naming; then `verify` on the honest chain and after each of 13 single tamperings (product byte, extra file, link content, link signature, link missing, link renamed, layout content, layout signed by an outsider, wrong -k, extra -k of a non-signer, an unloadable / missing key file listed before a good one, expired layout), each time compared with library verification of a byte-identical copy; `sign --verify` with signer / outsider keys, `key id` on a key and on a non-key, `match-products` on untouched and locally changed products compared with InTotoMatchProducts. " +
+		Rule: "seeded supply chains of 1-3 steps carried out ONLY through the built `in-toto` binary: per step `run` or `record start` / (changes by hand) / `record stop`, options drawn from {product names with non-ASCII characters, layout file signed as an earlier revision / revised in place / signed again with the same keys, --use-dsse, -c certificate with the CA in the layout (the certificate issued directly or by an intermediate CA that only `verify -i` supplies), -l strip prefix, -d metadata directory, --run-dir, -x, -e exclude}, step commands that are quiet / print several lines / write to stderr only; in a third of the chains the last step is carried out twice (a noisy first attempt, then the real one, both writing the same link path); layout written by the harness and signed with `in-toto sign` by 1-2 keys; link names checked against the verifier's naming; then `verify` on the honest chain and after each of 13 single tamperings (product byte, extra file, link content, link signature, link missing, link renamed, layout content, layout signed by an outsider, wrong -k, extra -k of a non-signer, an unloadable / missing key file listed before a good one, expired layout), each time compared with library verification of a byte-identical copy; `sign --verify` with signer / outsider keys, `key id` on a key and on a non-key, `match-products` on untouched and locally changed products compared with InTotoMatchProducts. " +
 			"non-trivial = the chain reached `verify`; distinct = (option set, tampering)",
 		Assumptions: []string{"the inspection of the generated layout runs in the directory `verify` is started in (a separate final-product directory)", "open known finding F6 also shows here: --use-dsse together with -c"},
 		Workers:     func(string) int { return 16 },
